@@ -10,7 +10,7 @@ REPO = os.environ.get("SC_BASE_REPO", "/repo")
 
 def make_copy():
     d = tempfile.mkdtemp(prefix="scmut-", dir=os.environ.get("TMPDIR", "/tmp"))
-    for x in ("src", "Cargo.toml", "Cargo.lock"):
+    for x in ("src", "Cargo.toml", "Cargo.lock", "README.md", "CHANGELOG.md"):
         s = os.path.join(REPO, x)
         if os.path.isdir(s):
             shutil.copytree(s, os.path.join(d, x))
